@@ -679,6 +679,62 @@ def _cmp_fork(interp, st, op, a, b, site):
     return out
 
 
+def m_instant_checked_since(interp, fn, args, st, site, frame):
+    """Instant::checked_duration_since(a, b): Some(a - b) when a >= b, else None - a path split with the deciding comparison
+    logged, the difference written as the `a - b` it is"""
+    if len(args) != 2:
+        return None
+    a, b = (deref(interp, x, st) if isinstance(x, Ref) else x for x in args)
+    out = []
+    for (ge, st2) in _cmp_fork(interp, st, "Ge", a, b, site + ":instant"):
+        if not ge:
+            out.append((NONE, st2))
+            continue
+        rt = getattr(interp, "_ret_ty", None)
+        interp._ret_ty = None
+        try:
+            (d, st3), = interp.opaque_call("<std::time::Instant as std::ops::Sub>::sub", [a, b], st2, site, frame)
+        finally:
+            interp._ret_ty = rt
+        out.append((some(d), st3))
+    return out
+
+
+def m_opt_transpose(interp, fn, args, st, site, frame):
+    """Option<Result<T, E>>::transpose -> Result<Option<T>, E>"""
+    out = []
+    for (o, st2) in opt_cases(interp, args[0], st, "opt@" + site):
+        if o.variant == 0:
+            out.append((ok(NONE), st2))
+            continue
+        for (r, st3) in res_cases(interp, o.fields[0], st2, "res@" + site):
+            out.append((ok(some(r.fields[0])) if r.variant == 0 else err(r.fields[0]), st3))
+    return out
+
+
+def m_opt_flatten(interp, fn, args, st, site, frame):
+    """Option<Option<T>>::flatten"""
+    out = []
+    for (o, st2) in opt_cases(interp, args[0], st, "opt@" + site):
+        if o.variant == 0:
+            out.append((NONE, st2))
+            continue
+        for (i, st3) in opt_cases(interp, o.fields[0], st2, "inner@" + site):
+            out.append((i, st3))
+    return out
+
+
+def m_opt_or_else(interp, fn, args, st, site, frame):
+    out = []
+    for (o, st2) in opt_cases(interp, args[0], st, "opt@" + site):
+        if o.variant == 1:
+            out.append((o, st2))
+        else:
+            r = _call_fnlike(interp, args[1], [], st2, frame, site, "or_else")
+            out.extend(r if r is not None else [(Top("or_else@" + site), st2)])
+    return out
+
+
 def m_int_minmax(interp, fn, args, st, site, frame):
     """usize::min / max, cmp::min / max on integers: piecewise linear, so the two cases become two paths with the deciding
     comparison logged (min(a, b) = a when a <= b)"""
@@ -1510,6 +1566,10 @@ BASE_MODELS = [
     (r"^std::option::Option::<.*>::or$", m_opt_or),
     (r"^std::option::Option::<.*>::replace$", m_opt_replace),
     (r"^std::result::Result::<.*>::err$", m_res_err),
+    (r"^std::time::Instant::checked_duration_since$", m_instant_checked_since),
+    (r"^std::option::Option::<std::result::Result<.*>>::transpose$", m_opt_transpose),
+    (r"^std::option::Option::<std::option::Option<.*>>::flatten$", m_opt_flatten),
+    (r"^std::option::Option::<.*>::or_else", m_opt_or_else),
     (r"^std::iter::once::<.*>$|^std::iter::once$", m_iter_once),
     (r"^<std::option::Option<.*> as std::iter::IntoIterator>::into_iter$", m_opt_into_iter),
     (r"^std::option::Option::<&.*>::(cloned|copied)$", m_opt_cloned),
